@@ -8,8 +8,13 @@ build.sources(), the doppel archive command and the srcdir inputs of every edge 
 level (direct oracle): real `bfg9000 configure-into` -> Makefile -> real `make dist` (real doppel) -> tar member list;
 every $(srcdir) path the Makefile mentions and every script opened during configure (audit hook) must be a member or be
 marked dist=False, dist=False-only files must be absent, nothing but srcdir entries, relative names, -C srcdir; the
-unpacked archive configures to the same Makefile modulo paths; after an automatic regeneration (file added to a
-find_files directory) the `extra` files are still members (regression for /repo 491a34f)."""
+unpacked archive configures to the same Makefile modulo paths; edit histories of the searched directories (no build.bfg
+edit: a file added to / removed from the found side, the extra= side, the not_now side of filter_by_platform, or no side
+of a cached find call, at top level, below it, in a new directory, in a submodule's directory): after every edit
+`make dist` - which lets the Makefile regenerate itself through `bfg9000 regenerate --lazy` (find_check_cache decides
+whether it really does) - must pack exactly the members a fresh configure + make dist of the edited tree packs, every
+file added on one of the three sides of a dist=True call is a member, no untouched member is dropped (regression for
+/repo 491a34f)."""
 import json
 import os
 import random
@@ -32,6 +37,10 @@ RULE = ('abstract scripts: 4..14 statements per script file drawn from 40 statem
         'objects, copy_file(s), man_page with compression, command/build_step with files= and node arguments, install/'
         'default/alias/test, 0..3 (nested) submodules, options.bfg absent/present/with its own submodule; file names '
         'with blanks, quotes, +=@ and non-ASCII characters. Every script is run fresh and with a pre-filled find cache. '
+        'Regeneration projects (system stage) have a find_files call with extra= at top level and one with '
+        'filter_by_platform in a submodule, and an edit history of about 8 single-file edits of searched directories '
+        '(per forced call one edit changing only the extra/not_now list, one changing the found list, one of any kind; '
+        'two edits of another cached call), make dist after each edit compared with a fresh configure of the edited tree. '
         'A case is non-trivial when it registers at least 3 files; distinct by the canonical text of the script.')
 TRUSTED = ('direct oracle: Makefile text decoder for $(srcdir) occurrences (single-quoted shell words and backslash-'
            'escaped rule-header words), cross-checked on every project against the references the generator knows',
@@ -103,7 +112,11 @@ class Gen:
         self.listed = set()     # find found/extra, extra_dist entries with dist
         self.finds = 0
         self.regen = regen
-        self.regen_find = None  # (dir of the find, script dir) to add a file to later
+        self.regen_find = None  # directory of the first forced find (kept for old replays)
+        self._specs = []        # (script dir, spec) of every find / include= call: the sites of the edit histories
+        self.sites = []
+        self.history = None
+        self.hseed = 0
 
     # -- helpers
     def lab(self):
@@ -209,21 +222,34 @@ class Gen:
         self.touch(d, fd + '/')
         for n in names:
             self.touch(d, fd + '/' + n)
+        spec['_names'], spec['_deep'] = names, []
         if deep or self.rng.random() < 0.3:
             self.touch(d, fd + '/deep/')
-            self.touch(d, fd + '/deep/' + self.names.new('m', ext))
-            self.touch(d, fd + '/deep/' + self.names.new('e', '.hpp'))
+            spec['_deep'] = [self.names.new('m', ext), self.names.new('e', '.hpp')]
+            for n in spec['_deep']:
+                self.touch(d, fd + '/deep/' + n)
+        self._specs.append((d, spec))
         return spec
 
-    def st_find(self, d):
+    def st_find(self, d, force=None):
         spec = self.find_spec(d, star=self.rng.random() < 0.25)
         lab = self.lab()
-        if self.regen and self.regen_find is None and spec['cache'] and spec['filter'] != 'lambda' and \
+        if force and spec['cache'] and spec['filter'] != 'lambda' and \
                 spec['type'] in (None, 'f') and spec['pattern'].endswith('.c'):
-            spec['extra'] = '*.hpp'
+            # a site every edit history can use: it has an extra= side ('extra') or a not_now filter ('platform')
+            if force == 'extra':
+                spec['extra'] = '*.hpp'
+                extra_name = 'always.hpp'
+            else:
+                spec['filter'] = 'platform'
+                extra_name = 'always_windows.c'
             spec['dist'] = True
-            self.touch(d, spec['dir'] + '/always.hpp')
-            self.regen_find = norm(d, spec['dir'])
+            spec['forced'] = force
+            self.nodist_dirs.discard(norm(d, spec['dir']))
+            self.touch(d, spec['dir'] + '/' + extra_name)
+            spec['_names'].append(extra_name)
+            if self.regen_find is None:
+                self.regen_find = norm(d, spec['dir'])
         st = {'op': 'find', 'spec': spec, 'paths': self.rng.random() < 0.2, 'label': lab,
               'file_type': self.rng.choice([None, None, 'source_file', 'generic_file'])}
         if spec['type'] == 'f' and st['file_type'] == 'source_file':
@@ -439,25 +465,30 @@ class Gen:
     MENU = [('st_file', 8), ('st_find', 3), ('st_dirinc', 2), ('st_extra_dist', 1), ('st_object', 2), ('st_objects', 1),
             ('st_pch', 1), ('st_link', 4), ('st_copy', 2), ('st_manz', 1), ('st_command', 2), ('st_misc', 2)]
 
-    def gen_script(self, d, depth, want_regen_find=False):
+    def gen_script(self, d, depth, force=None):
         stmts = []
         n = max(2, int(self.rng.randint(4, 14) * self.size))
         fns = [f for f, w in self.MENU for _ in range(w)]
         nsub = self.rng.choice([0, 1, 1, 2, 3]) if depth == 0 else (1 if depth == 1 and self.rng.random() < 0.3 else 0)
+        if force and depth == 0:
+            nsub = max(nsub, 1)     # the regeneration projects have a forced site in a sub-directory script as well
         sub_at = sorted(self.rng.randint(0, n) for _ in range(nsub))
-        if want_regen_find:
-            stmts.append(self.st_find(d))
+        sub_force = 'platform' if (force and depth == 0) else None
+        if force:
+            stmts.append(self.st_find(d, force))
             k = 0
-            while self.regen_find is None and k < 50:
+            while not stmts[-1]['spec'].get('forced') and k < 50:
                 self.objs.pop()
-                stmts[-1] = self.st_find(d)
+                self._specs.pop()       # the directory stays in the tree, but no call searches it: not a site
+                stmts[-1] = self.st_find(d, force)
                 k += 1
         for i in range(n + 1):
             while sub_at and sub_at[0] == i:
                 sub_at.pop(0)
                 sd = self.names.new('sub')
                 stmts.append({'op': 'sub', 'dir': sd})
-                self.gen_script(norm(d, sd), depth + 1)
+                self.gen_script(norm(d, sd), depth + 1, force=sub_force)
+                sub_force = None
             if i < n:
                 st = getattr(self, self.rng.choice(fns))(d)
                 if isinstance(st, list):
@@ -468,7 +499,7 @@ class Gen:
         self.touch(d, 'build.bfg', '')
 
     def generate(self):
-        self.gen_script('', 0, want_regen_find=self.regen)
+        self.gen_script('', 0, force='extra' if self.regen else None)
         r = self.rng.random()
         if r < 0.75:
             self.opt_scripts[''] = "argument('foo', default='x')\n"
@@ -477,7 +508,115 @@ class Gen:
                 self.opt_scripts[''] += 'submodule(%r)\n' % od
                 self.opt_scripts[od] = "argument('bar', default='y')\n"
         self.version = self.rng.choice(['1.0', '2.3.4', None])
+        self.sites = [site_of(d, spec) for d, spec in self._specs]
+        if self.regen:
+            self.hseed = self.rng.getrandbits(32)
         return self
+
+
+# ----------------------------------------------------------------------------- edit histories of searched directories
+def site_of(d, spec):
+    """What an edit history needs to know about one find_files / find_paths / include= call."""
+    return {'dir': norm(d, spec['dir']), 'pattern': spec['pattern'], 'extra': spec['extra'], 'exclude': spec['exclude'],
+            'filter': spec['filter'], 'type': spec['type'], 'cache': spec['cache'], 'dist': spec['dist'],
+            'names': list(spec.get('_names', [])), 'deep': list(spec.get('_deep', [])), 'forced': spec.get('forced')}
+
+
+def site_candidates(site, tag):
+    """Every single edit of the site's directory the histories draw from: {'kind': add|remove, 'path', 'side', 'expect',
+    'group'}.  side = which list of the find result the file belongs to as far as the generator knows (found / extra =
+    matched by extra= only / notnow = matched by the pattern but put off by filter_by_platform / none); expect = True
+    when the file must be a member afterwards (dist=True call and the file is on one of the three sides).  group:
+    'extra-only' edits leave the found list as it is, 'found' edits change it, 'other' edits change neither list."""
+    D, pat = site['dir'], site['pattern']
+    recursive = pat.startswith('**/')
+    ext = pat.split('/')[-1][1:]            # '.c' / '.h' / '' (pattern *)
+    cext = ext or '.c'
+    files_ok = site['type'] in (None, 'f', '*')
+    plat = site['filter'] == 'platform'
+    has_extra = bool(site['extra']) and files_ok
+    out = []
+
+    def side_of(name, below=False):
+        if not files_ok or (below and not recursive):
+            return 'none'
+        if site['exclude'] and '_skip' in name:
+            return 'none'
+        if ext == '' or name.endswith(ext):
+            return 'notnow' if (plat and '_windows' in name) else 'found'
+        if has_extra and name.endswith('.hpp'):
+            # extra= is a name glob: it applies wherever the walk gets to
+            return 'extra'
+        return 'none'
+
+    def group_of(side):
+        return {'found': 'found', 'extra': 'extra-only', 'notnow': 'extra-only', 'none': 'other'}[side]
+
+    def new(rel, side):
+        out.append({'kind': 'add', 'path': norm(D, rel), 'side': side, 'group': group_of(side), 'dist': site['dist'],
+                    'expect': True if (site['dist'] and side != 'none') else None})
+
+    new('znew_%s%s' % (tag, cext), side_of('znew' + cext))
+    new('znew_%s.hpp' % tag, side_of('znew.hpp'))
+    new('znew_%s_windows%s' % (tag, cext), side_of('znew_windows' + cext))
+    new('znew_%s.unmatched' % tag, side_of('znew.unmatched'))
+    new('znew_%s_skip%s' % (tag, cext), side_of('znew_skip' + cext))
+    if site['deep']:
+        new('deep/znew_%s%s' % (tag, cext), side_of('znew' + cext, below=True))
+        new('deep/znew_%s.hpp' % tag, side_of('znew.hpp', below=True))
+    new('znewdir_%s/inner%s' % (tag, cext), side_of('inner' + cext, below=True))
+    for n in site['names']:
+        sd = side_of(n)
+        if n != 'other.txt' or sd != 'none':
+            out.append({'kind': 'remove', 'path': norm(D, n), 'side': sd, 'group': group_of(sd), 'dist': site['dist'],
+                        'expect': None})
+    for n in site['deep']:
+        sd = side_of(n, below=True)
+        out.append({'kind': 'remove', 'path': norm(D, 'deep/' + n), 'side': sd, 'group': group_of(sd),
+                    'dist': site['dist'], 'expect': None})
+    # renames within one side: the lists keep their lengths, one entry changes
+    for n in site['names']:
+        sd = side_of(n)
+        if sd == 'none' or '/' in n:
+            continue
+        stem, dot, e = n.rpartition('.')
+        new_name = 'zren_%s_%s.%s' % (tag, stem, e) if dot else 'zren_%s_%s' % (tag, n)
+        if side_of(new_name) == sd:
+            out.append({'kind': 'rename', 'from': norm(D, n), 'path': norm(D, new_name), 'side': sd, 'group': group_of(sd),
+                        'dist': site['dist'], 'expect': True if site['dist'] else None})
+    return out
+
+
+def make_history(rng, sites, extra_sites=1):
+    """The edit history of one regeneration project: for every forced site one edit that changes only the extra /
+    not_now list, one that changes the found list and one drawn from all the others; for `extra_sites` further cached
+    sites two edits drawn from all kinds.  No build.bfg is edited.  Order shuffled."""
+    steps = []
+    cached = [s for s in sites if s['cache'] and s['filter'] != 'lambda']
+    forced = [s for s in cached if s.get('forced')]
+    others = [s for s in cached if not s.get('forced')]
+    rng.shuffle(others)
+    for k, site in enumerate(forced + others[:extra_sites]):
+        cands = site_candidates(site, 'h%d' % k)
+        picked = []
+
+        def pick(c):
+            # additions and removals equally often, whatever the number of files there is to remove
+            c = [x for x in c if x not in picked]
+            kinds = sorted(set(x['kind'] for x in c))
+            if kinds:
+                kind = rng.choice(kinds)
+                picked.append(rng.choice([x for x in c if x['kind'] == kind]))
+        if site.get('forced'):
+            for grp in ('extra-only', 'found'):
+                pick([x for x in cands if x['group'] == grp])
+            pick(cands)
+        else:
+            pick(cands)
+            pick(cands)
+        steps += picked
+    rng.shuffle(steps)
+    return steps
 
 
 # ----------------------------------------------------------------------------- rendering to bfg text
@@ -652,6 +791,16 @@ class Replayed:
         self.nodist_dirs = set(r.get('nodist_dirs', []))
         self.listed, self.refs = set(), set()
         self.regen_find = r.get('regen_find')
+        self.sites = r.get('sites')
+        if self.sites is None:
+            # replays written before the edit histories: one site, the directory of the forced find
+            fd = self.regen_find
+            self.sites = [] if not fd else [{
+                'dir': fd, 'pattern': '*.c', 'extra': '*.hpp', 'exclude': None, 'filter': None, 'type': None,
+                'cache': True, 'dist': True, 'deep': [], 'forced': 'extra',
+                'names': sorted(k[len(fd) + 1:] for k in files if k.startswith(fd + '/') and '/' not in k[len(fd) + 1:])}]
+        self.history = r.get('history')
+        self.hseed = r.get('hseed', 0)
         m = re.search(r"project\('proj', version='([^']*)'\)", files.get('build.bfg', ''))
         self.version = m.group(1) if m else None
 
@@ -806,6 +955,113 @@ def classify(kind, path, g):
     return tuple(cl)
 
 
+def set_times(src, build, newest):
+    """Explicit mtimes: sources oldest, build outputs newer, the edited entries newest (all in the past, so that one
+    regeneration settles it)."""
+    now = os.stat(os.path.join(build, 'Makefile')).st_mtime
+    for top, t in ((src, now - 300), (build, now - 200)):
+        for dp, dns, fns in os.walk(top):
+            for n in dns + fns:
+                os.utime(os.path.join(dp, n), (t, t), follow_symlinks=False)
+    for p in newest:
+        if os.path.lexists(p):
+            os.utime(p, (now - 100, now - 100))
+
+
+def apply_step(src, st):
+    """Performs one edit; returns the paths whose mtime must be newest (the entry and every directory it changed)."""
+    p = os.path.join(src, st['path'])
+    par = os.path.dirname(p)
+    newest = [par]
+    if st['kind'] == 'add':
+        if not os.path.isdir(par):
+            os.makedirs(par)
+            newest.append(os.path.dirname(par))
+        with open(p, 'w') as f:
+            f.write('/* added: %s */\n' % st['path'].replace('*/', ''))
+        newest.append(p)
+    elif st['kind'] == 'rename':
+        os.rename(os.path.join(src, st['from']), p)
+        newest.append(p)
+    else:
+        os.remove(p)
+    return newest
+
+
+def fresh_members(src, fb):
+    """Member set of the archive a fresh configure of src packs (None, message on failure)."""
+    try:
+        rc, out = project.configure(src, fb)
+        if rc != 0:
+            return None, 'configure: ' + out[-800:]
+        rc, _, out = project.make(fb, ['dist'])
+        if rc != 0:
+            return None, 'make dist: ' + out[-800:]
+        prefix, names, tars = archive_members(fb)
+        if names is None:
+            return None, 'archives: %r' % (tars,)
+        return strip_prefix(prefix, names)[0], ''
+    finally:
+        shutil.rmtree(fb, ignore_errors=True)
+
+
+def run_history(s, src, g, members, tarname, mk, fail, info):
+    from concurrent.futures import ThreadPoolExecutor
+    site_dirs = [x['dir'] for x in g.sites]
+    must = set(p for p in members if any(p.startswith(d + '/') for d in site_dirs))   # members the edits do not touch
+    done = []
+    mk_prev = mk
+    with ThreadPoolExecutor(1) as pool:
+        for k, st in enumerate(g.history):
+            label = '%s %s (%s side) ' % (st['kind'], st['path'], st['side'])
+            hist = 'after the edits %s' % json.dumps([[x['kind']] + ([x['from']] if x['kind'] == 'rename' else []) +
+                                                      [x['path']] for x in done + [st]])
+            gone = {'remove': st['path'], 'rename': st.get('from')}.get(st['kind'])
+            added = st['kind'] in ('add', 'rename')
+            if gone and not os.path.isfile(os.path.join(src, gone)):
+                continue        # an earlier edit of the history removed it
+            newest = apply_step(src, st)
+            done.append(st)
+            must.discard(st['path'])
+            must.discard(gone)
+            set_times(src, s.build, newest)
+            for n in os.listdir(s.build):
+                if n.endswith('.tar.gz'):
+                    os.remove(os.path.join(s.build, n))
+            fut = pool.submit(fresh_members, src, os.path.join(s.root, 'fbuild%d' % k))
+            rc, _, out = project.make(s.build, ['dist'])
+            want, msg = fut.result()
+            info.setdefault('steps', []).append('%s:%s' % (st['kind'], st['side']))
+            if want is None:
+                fail('a fresh configure + make dist of the edited tree failed (%s)' % label, msg + ' ' + hist)
+                return
+            if rc != 0:
+                fail('make dist failed %s (%s; a fresh configure of the same tree packs it)' % (hist, label), out[-1500:])
+                return
+            mk3 = project.read(s.build, 'Makefile')
+            info.setdefault('step_regenerated', []).append('%s=%s' % (st['group'], mk3 != mk_prev))
+            if st['group'] == 'found' and st.get('dist') and mk3 == mk_prev:
+                fail('oracle self-check: changing the found list of a find_files call did not regenerate the Makefile',
+                     label + out[-600:], ('harness',))
+            mk_prev = mk3
+            prefix3, names3, _ = archive_members(s.build)
+            m3, _ = strip_prefix(prefix3, names3 or [])
+            if added and st['expect'] and st['path'] not in m3:
+                fail('file added to a searched directory (%s side of a dist=True find call) is not in the archive of '
+                     '`make dist`' % st['side'], '%s %s' % (st['path'], hist))
+            if gone and gone in m3:
+                fail('removed file is still in the archive of `make dist`', '%s %s' % (gone, hist))
+            for p in sorted(must - m3):
+                fail('member dropped from the archive by `make dist` after an edit of a searched directory',
+                     '%s %s' % (p, hist), classify('missing-after-regen', p, g))
+            must &= m3      # reported once
+            if added and st['expect'] and st['path'] in m3:
+                must.add(st['path'])
+            if m3 != want:
+                fail('`make dist` %s packs other members than a fresh configure of the same tree' % hist,
+                     'only after regeneration: %r ; only fresh: %r' % (sorted(m3 - want)[:6], sorted(want - m3)[:6]))
+
+
 def check_project(rep, g, tag, regen=False):
     """Runs one generated project through the real tools. Returns list of (what, detail, classes)."""
     fails = []
@@ -952,55 +1208,13 @@ def check_project(rep, g, tag, regen=False):
                 fail('the unpacked archive configures to a different Makefile', repr(diff)[:1200])
         shutil.rmtree(fresh, ignore_errors=True)
         shutil.rmtree(ubuild, ignore_errors=True)
-        # (6) automatic regeneration keeps the extra files
-        if regen and g.regen_find:
-            fd = g.regen_find
-            before = set(p for p in members if p.startswith(fd + '/'))
-            newf = os.path.join(src, fd, 'znew_added.c')
-            with open(newf, 'w') as f:
-                f.write('int znew;\n')
-            # explicit mtimes: sources oldest, build outputs newer, the added file and its directory newest (all in
-            # the past, so that one regeneration settles it)
-            now = os.stat(os.path.join(s.build, 'Makefile')).st_mtime
-            for top, t in ((src, now - 300), (s.build, now - 200)):
-                for dp, dns, fns in os.walk(top):
-                    for n in dns + fns:
-                        os.utime(os.path.join(dp, n), (t, t))
-            os.utime(newf, (now - 100, now - 100))
-            os.utime(os.path.join(src, fd), (now - 100, now - 100))
-            os.remove(os.path.join(s.build, tars[0]))
-            rc, _, out = project.make(s.build, ['dist'])
-            if rc != 0:
-                fail('make dist failed after adding a file (regeneration)', out[-1500:])
-            else:
-                mk3 = project.read(s.build, 'Makefile')
-                info['regenerated'] = 'regenerating' in out or mk3 != mk
-                if mk3 == mk:
-                    fail('oracle self-check: adding a file to a find_files directory did not regenerate the Makefile',
-                         out[-600:], ('harness',))
-                prefix3, names3, _ = archive_members(s.build)
-                m3, _ = strip_prefix(prefix3, names3 or [])
-                if norm(fd, 'znew_added.c') not in m3:
-                    fail('file added to a find_files directory is not in the archive after regeneration', fd)
-                lost = sorted(before - m3)
-                for p in lost:
-                    fail('member dropped from the archive by an automatic regeneration', p,
-                         classify('missing-after-regen', p, g))
-                if norm(fd, 'always.hpp') not in m3:
-                    fail('find_files extra file is not in the archive after regeneration', norm(fd, 'always.hpp'),
-                         classify('missing-after-regen', fd, g))
-                # regenerated == fresh configure (as a set of dist sources)
-                fb = os.path.join(s.root, 'fbuild')
-                rc, out = project.configure(src, fb)
-                if rc == 0:
-                    r1 = dist_recipe(project.read(fb, 'Makefile'))
-                    r3 = dist_recipe(mk3)
-                    info['regen_recipe_same_text'] = (r1 == r3)
-                    from . import shtools
-                    if sorted(shtools.dash_words(r1.replace('$(', '(')) or []) != \
-                            sorted(shtools.dash_words(r3.replace('$(', '(')) or []):
-                        fail('dist sources after regeneration differ (as a set) from a fresh configure', fd)
-                shutil.rmtree(fb, ignore_errors=True)
+        # (6) edit histories of the searched directories (no build.bfg edit): after every edit `make dist` (which lets
+        # the Makefile regenerate itself through `bfg9000 regenerate --lazy` when a searched directory is newer) must
+        # pack what a fresh configure of the edited tree packs
+        if regen and g.sites:
+            if g.history is None:
+                g.history = make_history(random.Random(g.hseed), g.sites)
+            run_history(s, src, g, members, tars[0], mk, fail, info)
     return fails, info
 
 
@@ -1008,6 +1222,7 @@ def report_system(rep, g, what, detail, classes, regen):
     files, dirs = render_any(g)
     rep.fail('system: %s: %s' % (what, detail), {'stage': 'system', 'files': files, 'dirs': dirs,
                                                  'detail': detail, 'regen': regen, 'regen_find': g.regen_find,
+                                                 'sites': g.sites, 'history': g.history, 'hseed': g.hseed,
                                                  'nodist': sorted(g.nodist), 'withdist': sorted(g.withdist),
                                                  'nodist_dirs': sorted(g.nodist_dirs)},
              classes=classes, found_input='harness' not in classes)
@@ -1047,9 +1262,9 @@ def stage_system(rep, rng, n, regen_n):
             rep.sample('system project %d: %d scripts, %d files, members=%s refs=%s opened=%s nodist=%d' % (
                 i, len(g.scripts) + len(g.opt_scripts), len(g.tree), info.get('members'), info.get('refs'),
                 info.get('opened'), len(g.nodist)))
-        for k in ('regenerated', 'regen_recipe_same_text'):
-            if k in info:
-                rep.count('system:%s=%s' % (k, info[k]))
+        for k in ('steps', 'step_regenerated'):
+            for v in info.get(k, []):
+                rep.count('system:history:%s:%s' % (k, v))
         for what, detail, classes in fails:
             report_system(rep, g, what, detail, classes, regen)
     rep.stage('system', projects=n, regen_projects=regen_n)
